@@ -51,6 +51,12 @@ pub(crate) fn with_attrs(mut d: DirFileEntryData, bits: u8) -> DirFileEntryData 
     d.attrs = FileAttributes::from_bits_truncate(bits);
     d
 }
+pub(crate) fn d_size_raw(d: &DirFileEntryData) -> u32 {
+    d.size
+}
+pub(crate) fn d_attrs(d: &DirFileEntryData) -> u8 {
+    d.attrs.bits()
+}
 pub(crate) fn d_is_dir(d: &DirFileEntryData) -> bool {
     d.is_dir()
 }
